@@ -39,6 +39,8 @@ proof_copy!(10, crate::c12::byte_copy, fn c12_seq_store_load() {
     assert!(a.load() == pair(init), "c12: initial value not readable");
     let p = a.acquire_producer().unwrap();
     assert!(a.acquire_producer().is_none(), "c12: a second producer was handed out");
+    // the refused attempt must not disturb the first handle: further attempts stay refused
+    assert!(a.acquire_producer().is_none(), "c12: a refused acquisition released the first producer's claim");
     let mut step = 0;
     while step < 3 {
         let v: u32 = kani::any();
@@ -161,9 +163,12 @@ pub mod sched {
         pub loads_mid_store: usize,
         pub last_seen: u32,
         pub bad: u8,            // 2 = fine
+        pub loan_open: u8,      // 1 = a loan-style write is written but not published
+        pub loans: usize,
+        pub loads_during_loan: usize,
     }
     pub static mut BOOK: Book = Book { next: 1, completed: 0, budget: 0, in_inner: 2, mid: 2, writes_mid_load: 0,
-        loads_mid_store: 0, last_seen: 0, bad: 2 };
+        loads_mid_store: 0, last_seen: 0, bad: 2, loan_open: 2, loans: 0, loads_during_loan: 0 };
     pub static mut APTR: usize = 1;
     pub static mut PPTR: usize = 1;
 
@@ -171,19 +176,37 @@ pub mod sched {
         &*(APTR as *const UnrestrictedAtomic<Pair>)
     }
 
-    fn do_store(two_step: bool) {
+    /// writer actions: 0 = store(copy), 1 = loan-style write into the write cell (not yet
+    /// published), 2 = publish the open loan.  While a loan is open the only possible action is 2.
+    fn writer_action(which: u8) {
         unsafe {
             let p = &*(PPTR as *const Producer<'static, Pair>);
+            if BOOK.loan_open == 1 {
+                p.__internal_update_write_cell();
+                BOOK.loan_open = 2;
+                BOOK.completed = BOOK.next - 1;
+                return;
+            }
             let v = BOOK.next;
             BOOK.next += 1;
-            if two_step {
+            if which == 0 {
+                p.store(pair(v));
+                BOOK.completed = v;
+            } else {
                 let ptr = p.__internal_get_ptr_to_write_cell();
                 ptr.write(pair(v));
-                p.__internal_update_write_cell();
-            } else {
-                p.store(pair(v));
+                BOOK.loan_open = 1;
+                BOOK.loans += 1;
             }
-            BOOK.completed = v;
+        }
+    }
+
+    fn do_store(two_step: bool) {
+        writer_action(if two_step { 1 } else { 0 });
+        unsafe {
+            if BOOK.loan_open == 1 {
+                writer_action(2);
+            }
         }
     }
 
@@ -193,8 +216,14 @@ pub mod sched {
     fn do_load() {
         unsafe {
             let floor = BOOK.completed;
+            let loan_at_start = BOOK.loan_open == 1;
             let v = atomic().load();
-            let ceil = BOOK.next - 1;
+            // newest value that may legitimately be visible: everything started is either published
+            // or being published, except an open loan that stayed open during the whole load
+            let ceil = if loan_at_start && BOOK.loan_open == 1 { BOOK.next - 2 } else { BOOK.next - 1 };
+            if BOOK.loan_open == 1 {
+                BOOK.loads_during_loan += 1;
+            }
             assert!(is_pair(v), "c12: torn read (mixture of two writes)");
             assert!(v[0] >= floor, "c12: load returned a value older than a store completed before it began");
             assert!(v[0] <= ceil, "c12: load returned a value that was never stored");
@@ -214,7 +243,7 @@ pub mod sched {
                 if BOOK.mid == 1 {
                     BOOK.writes_mid_load += 1;
                 }
-                do_store(kani::any());
+                writer_action(kani::any::<u8>() & 1);
             }
             BOOK.in_inner = 2;
         }
@@ -256,7 +285,14 @@ pub mod sched {
                 i += 1;
             }
             verif_clear_hook();
+            // close an open loan so that the harness ends in a quiescent state
+            if BOOK.loan_open == 1 {
+                writer_action(2);
+            }
+            do_load();
+            assert!(BOOK.last_seen == BOOK.next - 1, "c12: final load does not return the last published value");
             kani::cover!(BOOK.writes_mid_load >= 2, "writer lapped the reader inside one load");
+            kani::cover!(BOOK.loads_during_loan >= 1, "a load ran while a loan-style write was written but unpublished");
             kani::cover!(BOOK.last_seen >= 1 && BOOK.writes_mid_load >= 1, "reader observed a value stored during its load");
             assert!(SPLITS > 100, "harness: tear stub not reached");
         }
